@@ -18,6 +18,21 @@ CHECKS = {
    note="Trusted: Coq kernel, extraction, driver, harness; tokenizer/ast are oracles answered by CPython (pristine copy of the vendored 3.11 tokenizer; ast.parse); Directive.extract answers taken from xdoctest in this check; partition of parts inside a chunk (_package_chunk slicing) and the declarative label spec are checked on the implementation by the harness predicates, not yet by a theorem.",
    technique="Coq proof (induction over lines / groups, for all oracles) + extracted-model/implementation differential correspondence + intended-label search",
    design="5/C13"),
+ 'C02': dict(
+   text="Coq theorems over the model of DocTest.run / DoctestPart.check / _post_run (Model/RunLoop.v), for EVERY oracle of what parts print/return/raise and every REQUIRES oracle: C02_candidates + C02_want_iff (a want is satisfied iff some trailing portion of the outputs since the previous want, or the value's repr, matches - exact side conditions), C02_mismatch_means_nothing_matches, C02_no_want_never_fails, C02_want_decides (continue iff satisfied, else got/want failure attributed to that part), C02_fail_stop (all parts before the failing one visited, none after), C02_exactly_one, C02_pass_iff, C02_passed_means_something_ran. Tie to the code: the real run (compile/exec/eval observed from outside) vs the extracted model fed with the recorded outcomes - verdict, failure kind, failing part, executed/skipped parts, per-part stdout, unmatched buffer - on every doctest of <=2 (quick) / 3 statements over 9 statement kinds x every want placement x every correct variant x every single corruption (incl. stale text from earlier in the same doctest), plus seeded deeper doctests; by-construction verdict and TRACE are checked on the implementation independently of the model.",
+   note="Trusted: Coq kernel, extraction, driver, harness; per-part outcomes (stdout, value repr, exception) are oracles taken from CPython exec/eval; check_output is the C05 model; helper functions injected into the doctest namespace.",
+   technique="Coq proof (loop invariant by induction over parts; characterisation of DoctestPart.check) + extracted-model/implementation differential correspondence + by-construction verdict search",
+   design="5/C02"),
+ 'C03': dict(
+   text="Coq theorems over the raising arm of the run-loop model with checker.check_exception / extract_exc_want / _strip_exception_details: C03_no_want_fails, C03_nontraceback_fails (a want that is not a traceback block never hides the exception: the doctest fails with the raised exception), C03_traceback_iff (the run goes on iff the final line matches under the active flags or - with IGNORE_EXCEPTION_DETAIL - the stripped type does; otherwise a got/want failure), C03_exception_match_spec, C03_no_raise_traceback_want, C03_fail_stop, C03_no_failure_all_visited (after an expected exception the following parts are still visited). Tie to the code: extract_exc_want on all line-structured texts of <=2/3 lines over 27 line symbols + seeded longer ones, _strip_exception_details on all strings over {a . : newline space} up to length 5/6, and the doctest table 4 exception classes x 6 messages x 10 want forms x 4 flag settings x positions x {direct, from a helper} run through DocTest.run and the model; by-construction verdict, raised class and TRACE checked on the implementation.",
+   note="Trusted: Coq kernel, extraction, driver, harness; traceback.format_exception_only is CPython's (its last element is the oracle); the _EXCEPTION_RE scanner is hand-written (validated on the enumerated texts only).",
+   technique="Coq proof (decision table of one loop iteration for all states) + differential correspondence (step level exhaustive, end-to-end table) + by-construction search",
+   design="5/C03"),
+ 'C04': dict(
+   text="Coq theorems over the model of RuntimeState/Directive.effects (Model/Directive.v) against the abstract scoping machine Spec/Scoping.v: C04_scoping (for EVERY sequence of directive lists - block or inline, +-SKIP, +-REQUIRES with any arguments met or unmet, any other flag - from every well-formed state and every REQUIRES oracle, the statements that run are exactly those the abstract machine selects, and update never raises), C04_update_refines, C04_inline_leaves_persistent (the whole persistent dict is untouched), C04_overlay_is_dropped, C04_defaults_as_leading_block, C04_initial_state_wf, C04_skipped_no_effect. Tie to the code: RuntimeState.update on every update sequence of <=3/4 over 20 directive symbols (to_dict, skip test, raised class, persistent dict after every update) and the same histories rendered as real doctests in 10 statement shapes (one-line, multi-line, compound, decorated def/class/async def in both prompt styles, with want, decoy directive text in strings) x default_runtime_state, run through DocTest.run and the model; the executed TRACE is compared with a python transcription of the abstract machine.",
+   note="Trusted: Coq kernel, extraction, driver, harness; which text is a comment is the tokenizer's (decoys tested); the slicing of a chunk into parts at directive statements (_package_chunk) is covered by the parser correspondence (C13 harness) and the end-to-end TRACE, not by a theorem; REPORT_* directives are outside the property's quantifier (Scoped).",
+   technique="Coq proof (refinement of an abstract state machine, induction over directives and parts) + differential correspondence (unit level exhaustive, end-to-end) + spec-vs-TRACE search",
+   design="5/C04"),
 }
 
 NOT_APPLICABLE = {}
